@@ -2,7 +2,10 @@
 C20 / C03 — time-of-day cells: every clock spelling with two digits per part is accepted and stored as exactly
 the stated length (`C20_clock_hms`, `C20_clock_hm`, `C20_clock_compact_hms`, `C20_clock_compact_hm`: all
 100 × 100 × 100 readings, 99:99:99 included — the code does not restrict hours, minutes or seconds); a text of
-digits only that has neither four nor six of them is rejected (`C20_digits_wrong_length_rejected`).
+digits only that has neither four nor six of them is rejected (`C20_digits_wrong_length_rejected`); a Go-syntax
+segment `<n>h` / `<n>m` / `<n>s` with a canonical decimal number is accepted as n units whenever the value fits
+(`C20_duration_single_segment`), and a text containing a character that Go duration syntax does not use is rejected
+wherever the character stands (`C20_duration_garbage_rejected`).
 Model: `Model.Duration`, tied to the code by `corr.xproto.duration`.
 -/
 import TableauVerif.Model.Duration
@@ -501,5 +504,133 @@ theorem C20_duration_garbage_rejected (s : Str) (hdot : s.contains 46 = false) (
   rw [segments_bad _ _ 0 (by omega) hbody]
 
 example : parseGo (Str.ofString "1h30x") = .err := by decide
+
+end TableauVerif.Props.C20Dur
+
+namespace TableauVerif.Props.C20Dur
+open TableauVerif TableauVerif.Model.Duration TableauVerif.Model.Literal
+
+/-! ### Go duration syntax: segments `<n><unit>` with canonical decimal numbers -/
+
+theorem parseNatAux_ge : ∀ (ds : Str) (acc v : Nat), Str.parseNatAux ds acc = some v → acc ≤ v := by
+  intro ds
+  induction ds with
+  | nil => intro acc v h; simp [Str.parseNatAux] at h; omega
+  | cons c cs ih =>
+    intro acc v h
+    unfold Str.parseNatAux at h
+    split at h
+    · have := ih _ _ h; omega
+    · simp at h
+
+/-- `leadingInt` reads a run of digits as `parseNat` does, as long as the value fits -/
+theorem leadingInt_of_parseNat : ∀ (ds : Str) (acc v : Nat) (rest : Str), Str.parseNatAux ds acc = some v → v ≤ maxU →
+    (rest = [] ∨ ∃ c cs, rest = c :: cs ∧ Str.isDigit c = false) →
+    leadingInt (ds ++ rest) acc = some (v, rest) := by
+  intro ds
+  induction ds with
+  | nil =>
+    intro acc v rest h _ hr
+    simp [Str.parseNatAux] at h; subst h
+    rcases hr with rfl | ⟨c, cs, rfl, hc⟩
+    · rfl
+    · simp [leadingInt, hc]
+  | cons c cs ih =>
+    intro acc v rest h hv hr
+    unfold Str.parseNatAux at h
+    split at h
+    · rename_i hd
+      have hge := parseNatAux_ge _ _ _ h
+      have hm : maxU / 10 = 922337203685477580 := by decide
+      have h1 : ¬ acc > maxU / 10 := by rw [hm]; simp [maxU] at hv; omega
+      have h2 : ¬ acc * 10 + (c - 48) > maxU := by omega
+      simp only [List.cons_append, leadingInt, hd, if_true, h1, if_false, h2]
+      exact ih _ _ _ h hv hr
+    · simp at h
+
+theorem leadingInt_decimal (n : Nat) (hn : n ≤ maxU) (rest : Str)
+    (hr : rest = [] ∨ ∃ c cs, rest = c :: cs ∧ Str.isDigit c = false) :
+    leadingInt (Str.decimal n ++ rest) 0 = some (n, rest) := by
+  have hp := Lemmas.Decimal.parseNat_decimal n
+  unfold Str.parseNat at hp
+  have hne := Lemmas.Decimal.decimal_ne_nil n
+  cases hd : Str.decimal n with
+  | nil => exact absurd hd hne
+  | cons c cs =>
+    rw [hd] at hp
+    simp only [] at hp
+    rw [← hd] at hp ⊢
+    exact leadingInt_of_parseNat _ 0 n rest hp hn hr
+
+/-- the single-letter units -/
+theorem unitSpan_letter (u : Nat) (rest : Str) (hu : (u == 46 || Str.isDigit u) = false)
+    (hr : rest = [] ∨ ∃ c cs, rest = c :: cs ∧ Str.isDigit c = true) : unitSpan (u :: rest) = ([u], rest) := by
+  rcases hr with rfl | ⟨c, cs, rfl, hc⟩
+  · simp [unitSpan, hu]
+  · simp [unitSpan, hu, hc]
+
+/-- **C20_duration_single_segment**: `<n>h`, `<n>m`, `<n>s` with a canonical decimal number (and a value that fits)
+is accepted as n units -/
+theorem C20_duration_single_segment (n u unit : Nat) (hu : clockUnit u = some unit) (hn : 0 < n) (hfit : n * unit ≤ maxU - 1) :
+    parseGo (Str.decimal n ++ [u]) = .ok ((n * unit : Nat) : Int) := by
+  have hud : Str.isDigit u = false ∧ (u == 46) = false ∧ unitOf [u] = some unit ∧ 0 < unit ∧ durCh u = true := by
+    unfold clockUnit at hu
+    split at hu
+    · subst u; simp at hu; subst hu; decide
+    · split at hu
+      · subst u; simp at hu; subst hu; decide
+      · split at hu
+        · subst u; simp at hu; subst hu; decide
+        · simp at hu
+  obtain ⟨hd, h46, hunit, hpos, _⟩ := hud
+  have hdig := Lemmas.Decimal.decimal_digits n
+  have hne := Lemmas.Decimal.decimal_ne_nil n
+  -- no '.', no sign, not "0"
+  have hno : (Str.decimal n ++ [u]).contains 46 = false := by
+    simp only [List.contains_eq_mem, List.mem_append, List.mem_singleton, decide_eq_false_iff_not, not_or]
+    refine ⟨fun h => ?_, fun h => by simp [← h] at h46⟩
+    have := hdig 46 h; simp [Str.isDigit] at this
+  obtain ⟨c, cs, hdc⟩ : ∃ c cs, Str.decimal n = c :: cs := by
+    cases h : Str.decimal n with
+    | nil => exact absurd h hne
+    | cons c cs => exact ⟨c, cs, rfl⟩
+  have hcd : Str.isDigit c = true := hdig c (by rw [hdc]; simp)
+  have hsign : signSplit (Str.decimal n ++ [u]) = (false, Str.decimal n ++ [u]) := by
+    unfold signSplit
+    rw [hdc]
+    simp only [List.cons_append]
+    split
+    · rename_i heq; simp at heq; rw [heq.1] at hcd; simp [Str.isDigit] at hcd
+    · rename_i heq; simp at heq; rw [heq.1] at hcd; simp [Str.isDigit] at hcd
+    · rfl
+  have hnz : (Str.decimal n ++ [u] == [48]) = false := by
+    rw [hdc]; simp only [List.cons_append]
+    cases cs <;> simp
+  have hnemp : (Str.decimal n ++ [u]).isEmpty = false := by rw [hdc]; rfl
+  have hnU : n ≤ maxU := by
+    have : n * 1 ≤ n * unit := Nat.mul_le_mul_left n hpos
+    omega
+  unfold parseGo
+  simp only [hno, Bool.false_eq_true, if_false, hsign, hnz, hnemp]
+  -- one iteration of the segment loop
+  have hli := leadingInt_decimal n hnU [u] (Or.inr ⟨u, [], rfl, hd⟩)
+  have hseg : segments ((Str.decimal n ++ [u]).length + 1) (Str.decimal n ++ [u]) 0 = some (n * unit) := by
+    rw [hdc] at hli ⊢
+    simp only [List.cons_append] at hli ⊢
+    rw [List.length_cons, segments]
+    have hfirst : (c == 46 || Str.isDigit c) = true := by simp [hcd]
+    simp only [hfirst, Bool.not_true, Bool.false_eq_true, if_false, hli]
+    have hlen : (([u] : Str).length == (c :: (cs ++ [u])).length) = false := by simp
+    simp only [hlen, Bool.false_eq_true, if_false, unitSpan_letter u [] (by simp [h46, hd]) (Or.inl rfl), List.isEmpty_cons, hunit]
+    have hv : ¬ n > maxU / unit := by
+      have : n ≤ maxU / unit := (Nat.le_div_iff_mul_le hpos).mpr (by omega)
+      omega
+    have hdd : ¬ 0 + n * unit > maxU := by omega
+    simp only [hv, hdd, if_false]
+    have : (cs ++ [u]).length + 1 = (cs ++ [u]).length.succ := rfl
+    simp [segments]
+  rw [hseg]
+  have hle : ¬ n * unit > maxU - 1 := by omega
+  simp [hle]
 
 end TableauVerif.Props.C20Dur
